@@ -32,7 +32,7 @@ def lines_for(d):
         return [f"guard neg {fl(d['value'])}"]
     if cls == "time":
         tau = np.asarray(d["value"], dtype=float)
-        if d["kind"] in ("E", "P", "X", "D"):  # a decay time: only the sign is checked
+        if d["kind"] in ("E", "P", "X", "D", "E_T1", "E_T2", "X_T2"):  # a decay / relaxation time: only the sign is checked
             return [f"guard neg {fl(tau)}"]
         k = utils.get_wavenumber(tau, 5.0) if d["kind"] == "G" else tau
         return [f"guard neg {fl(tau)}", f"guard zeroshift {fl(k)}"]
@@ -42,9 +42,8 @@ def lines_for(d):
         last = 1 if pyint else np.atleast_2d(k).shape[-1]
         return [f"guard zeroshift {fl(k)}", f"guard ncomp {1 if pyint else 0} {last}"]
     if cls == "float_no_grid":
-        g = d["grid"]
-        smg = f2b(0.1) if g in ("sm", "simulate") else "none"
-        opg = f2b(0.1) if g == "op" else "none"
+        smg = f2b(d["smg"]) if d["smg"] is not None else "none"
+        opg = f2b(d["opg"]) if d["opg"] is not None else "none"
         return [f"guard grid {smg} {opg}"]
     if cls == "states":
         st = np.asarray(d["states"])
